@@ -47,6 +47,13 @@ def case_strategy(draw):
             r["qname"] = r["qname"] + "x"
         spec["bams"].append(extra)
         spec["samples"] = samples = samples + ["S9"]
+    # a sample without any read at one locus (its statistics there must not borrow anything from its neighbours)
+    if draw(st.booleans()):
+        victim = draw(st.sampled_from(samples[1:] or samples))
+        locus = draw(st.sampled_from(spec["loci"]))
+        for b in spec["bams"]:
+            ids = {rg["id"] for rg in b["read_groups"] if rg["sm"] == victim}
+            b["reads"] = [r for r in b["reads"] if not (r["rg"] in ids and r["contig"] == locus["contig"] and D.overlaps(r, locus["start"] - 2, locus["stop"] + 2))]
     ploidy = {s: draw(st.sampled_from([2, 4, 3])) for s in samples}
     perm = list(draw(st.permutations(samples)))
     alone = draw(st.sampled_from(samples))
@@ -279,4 +286,4 @@ def replay(ctx, case):
 
 def run(ctx):
     q = ctx.quick
-    ctx.hyp("independence", case_strategy(), check_case, 30 if q else 120)
+    ctx.hyp("independence", case_strategy(), check_case, 45 if q else 150)
